@@ -240,14 +240,15 @@ def run_handler(case):
                     method = sub.get("method", "GET" if kind == "http" else "POST")
                     headers = http.client.HTTPMessage()
                     body = sub.get("body", "")
+                    raw = bytes.fromhex(sub["body_hex"]) if "body_hex" in sub else body.encode()
                     if kind == "sqlite":
-                        headers["Content-Length"] = str(len(body.encode()))
+                        headers["Content-Length"] = sub.get("content_length", str(len(raw)))
                     ri = _STATE["HttpRequestInfo"](client_address=client_address, headers=headers, method=method,
                                                    server_address=("::", 80), uri=uri)
                     ctx = handler.prepare_context(uri)
                     if not handler.can_handle(uri, ctx):
                         return "harness:request does not match the handler: " + uri, None
-                    status, hdrs, f = handler.handle(ri, io.BytesIO(body.encode()), ctx)
+                    status, hdrs, f = handler.handle(ri, io.BytesIO(raw), ctx)
                     status = int(status)
                     obs["status"] = status
                     if f is not None:
@@ -255,7 +256,7 @@ def run_handler(case):
                             body_bytes = f.read()
                         finally:
                             f.close()
-                    outcome = {200: "served", 403: "forbidden", 404: "not_found"}.get(status, "other:%d" % status)
+                    outcome = {200: "served", 403: "forbidden", 404: "not_found", 400: "bad_request"}.get(status, "other:%d" % status)
             except DataSourceFailure:
                 outcome = "ds_error"
             except Exception as e:  # whatever escapes the handler is an internal error of the server
